@@ -75,4 +75,17 @@ PROPS = {
         trusted=["libp2p eventbus", "simnet fake host/stream + synctest quiescence"],
         shards={"quick": 8, "thorough": 16},
     ),
+    "C01": dict(
+        pkg=".", test="TestVerifC01", model="C01", verdict="C01v", level="proof",
+        rule="a case is a scripted network (1-40 peers ranked by real XOR distance to the key, thorough up to 300; "
+             "honest peers with partial knowledge, failing / undialable / silent peers, liars naming self, duplicates, "
+             "fabricated ids and >2K entries), a seed routing table, (K, alpha, beta) and an arrival order of the "
+             "outcomes (4 policies, optional cancel); after every delivered outcome the set of in-flight queries is "
+             "compared, at the end the result, states, completed flag, follow-ups and the published lookup events; "
+             "non-trivial = >=3 responses, >=1 failure or lie, arrival order differs from nearest-first; distinct = "
+             "distinct case text",
+        trusted=["kbucket NearestPeers (seeds), go-keyspace XOR metric (ranks are computed with it)",
+                 "scripted MessageSender + simnet host, synctest quiescence"],
+        shards={"quick": 8, "thorough": 16},
+    ),
 }
